@@ -155,6 +155,15 @@ Example parse_print_layout_ex :
   end.
 Proof. vm_compute. repeat split. Qed.
 
+(* ---- 5c. ... and under any layout with line ends and '#' comments in the gaps *)
+Theorem parse_print_gaps : forall force e items trail, wf_sexpr e = true ->
+  map snd items = print force 1 e -> Gaps true items -> is_gap trail ->
+  exists e' st', parse_expression_src (lay items trail) = POk e' st' /\
+                 strip (lay items trail) e' = Some (desugar e).
+Proof. exact Syntax.parse_print_gaps. Qed.
+Print Assumptions parse_print_gaps.
+(* non-vacuity: Example expr_gaps_insensitive_ex in Props/C13_lexer.v *)
+
 (* ---- 6. compound assignment is assignment of the binary operation *)
 Theorem compound_desugar : forall b l r, wf_sexpr (SCompound b l r) = true ->
   exists e' st', parse_expression_src (text_of (render (SCompound b l r))) = POk e' st' /\
